@@ -3,6 +3,7 @@
 package xlate
 
 import (
+	"bytes"
 	"fmt"
 	"math/rand"
 	"regexp"
@@ -10,6 +11,7 @@ import (
 
 	commonpb "go.temporal.io/api/common/v1"
 	enumspb "go.temporal.io/api/enums/v1"
+	failurepb "go.temporal.io/api/failure/v1"
 	historypb "go.temporal.io/api/history/v1"
 	"google.golang.org/protobuf/proto"
 	"google.golang.org/protobuf/reflect/protoreflect"
@@ -138,4 +140,42 @@ func jsonOf(m proto.Message) string {
 		s = s[:1500] + "…"
 	}
 	return s
+}
+
+// dirtyTwin serializes evs together with an ActivityTaskFailed event whose failure message holds invalid UTF-8
+// (the bytes are patched into the serialized form - same length, so the framing stays valid; Go's marshaller
+// refuses to write such a string), and returns the clean twin too. The proxy repairs such blobs through its
+// legacy decoder before translating them: a blob that needed repair must still be translated and checked.
+const dirtyMarker = "ZZQQZZQQ"
+
+func dirtyTwin(evs []*historypb.HistoryEvent, badFirst bool) (clean, dirty *commonpb.DataBlob) {
+	bad := &historypb.HistoryEvent{EventId: 99, EventType: enumspb.EVENT_TYPE_ACTIVITY_TASK_FAILED, Attributes: &historypb.HistoryEvent_ActivityTaskFailedEventAttributes{
+		ActivityTaskFailedEventAttributes: &historypb.ActivityTaskFailedEventAttributes{Failure: &failurepb.Failure{Message: dirtyMarker}, ScheduledEventId: 1, StartedEventId: 2}}}
+	all := append(append([]*historypb.HistoryEvent{}, evs...), bad)
+	if badFirst {
+		all = append([]*historypb.HistoryEvent{bad}, evs...)
+	}
+	clean = gen.EncodeEvents(all)
+	dirty = proto.Clone(clean).(*commonpb.DataBlob)
+	dirty.Data = bytes.Replace(dirty.Data, []byte(dirtyMarker), []byte("ZZ\xff\xfeQQZZ"), 1)
+	return clean, dirty
+}
+
+func putBlob(msg proto.Message, bp gen.Path, blob *commonpb.DataBlob) {
+	parent, f := gen.Descend(msg, bp)
+	if f.IsList() {
+		parent.Mutable(f).List().Append(protoreflect.ValueOfMessage(blob.ProtoReflect()))
+	} else {
+		parent.Set(f, protoreflect.ValueOfMessage(blob.ProtoReflect()))
+	}
+}
+
+// sitePaths: the multiset of site paths (values dropped) - the "shape" of what a walk found
+func sitePaths(s []gen.Site) string {
+	var b strings.Builder
+	for _, x := range sortedSites(s) {
+		b.WriteString(x.Path)
+		b.WriteByte('\n')
+	}
+	return b.String()
 }
